@@ -39,7 +39,7 @@ const (
 )
 
 type Op struct {
-	K    string `json:"k"` // w r snap prep fold rm del revert reopen reload punch resize lun cand rf clean
+	K    string `json:"k"` // w r snap prep fold rm del revert reopen reload punch resize lun cand rf clean u
 	Off  int64  `json:"off,omitempty"`
 	Len  int64  `json:"len,omitempty"`
 	Tok  int64  `json:"tok,omitempty"`
@@ -362,6 +362,10 @@ func (r *runner) do(op Op) (res string, data []int64, names []int, sizes []int64
 		return "ok", r.decode(buf, op.Off), nil, nil, fmt.Sprintf("swapped %d", swapped)
 	case "clean":
 		return r.clean(op)
+	case "u":
+		hx.QuiesceHoles()
+		_, err := s.Unmap(op.Off*U, op.Len*U)
+		return rc(err), nil, nil, nil, ""
 	case "snap":
 		return rc(s.Snapshot(snapName(op.Name), op.User, created)), nil, nil, nil, ""
 	case "prep":
